@@ -5,7 +5,6 @@ import (
 	"errors"
 	"io"
 	"sort"
-	"strconv"
 	"strings"
 
 	"github.com/benoitkugler/webrender/backend"
@@ -296,7 +295,7 @@ func (na nodeAttributes) miterLimit() (Fl, error) {
 	if !has {
 		attrValue = "4"
 	}
-	v, err := strconv.ParseFloat(attrValue, 32)
+	v, err := parseFiniteFloat(attrValue)
 	if v < 0 {
 		v = 4
 	}
